@@ -53,7 +53,12 @@ SymFn = Callable[[ast.expr], Any]
 
 
 class Evaluator:
-    def __init__(self, env: Dict[str, Any], sym: Optional[SymFn] = None, opaque_return: bool = True, ignore_calls: Iterable[str] = ()):
+    def __init__(self, env: Dict[str, Any], sym: Optional[SymFn] = None, opaque_return: bool = True, ignore_calls: Iterable[str] = (),
+                 call_hook: Optional[Callable[[ast.Call, "Evaluator"], bool]] = None):
+        self.call_hook = call_hook
+        self._init(env, sym, opaque_return, ignore_calls)
+
+    def _init(self, env: Dict[str, Any], sym: Optional[SymFn], opaque_return: bool, ignore_calls: Iterable[str]) -> None:
         self.env = dict(env)
         self.sym = sym
         self.opaque_return = opaque_return
@@ -66,8 +71,22 @@ class Evaluator:
             if v is not None:
                 return v
         if isinstance(e, ast.Constant):
-            if isinstance(e.value, (int, bool)) or e.value is None:
+            if isinstance(e.value, (int, bool, str, bytes)) or e.value is None:
                 return e.value
+            raise Unsupported(e)
+        if isinstance(e, ast.Subscript):
+            base = self.ev(e.value)
+            if isinstance(base, (tuple, str, bytes)):
+                if isinstance(e.slice, ast.Slice):
+                    lo = self.ev(e.slice.lower) if e.slice.lower is not None else None
+                    hi = self.ev(e.slice.upper) if e.slice.upper is not None else None
+                    st_ = self.ev(e.slice.step) if e.slice.step is not None else None
+                    return base[lo:hi:st_]
+                i = self.ev(e.slice)
+                try:
+                    return base[i]
+                except Exception:
+                    raise Unsupported(e)
             raise Unsupported(e)
         if isinstance(e, ast.Name):
             if e.id in self.env:
@@ -84,12 +103,12 @@ class Evaluator:
             if isinstance(base, Obj) and e.attr in base.__dict__:
                 return base.__dict__[e.attr]
             raise Unsupported(e, "unbound attribute")
-        if isinstance(e, ast.Call) and isinstance(e.func, ast.Name) and e.func.id in ("len", "max", "min", "abs", "int", "bool", "sum", "any", "all") \
+        if isinstance(e, ast.Call) and isinstance(e.func, ast.Name) and e.func.id in ("len", "max", "min", "abs", "int", "bool", "sum", "any", "all", "str", "tuple", "list") \
                 and all(k.arg == "default" for k in e.keywords):
             args = [self.ev(a) for a in e.args]
             kw = {k.arg: self.ev(k.value) for k in e.keywords}
             try:
-                return {"len": len, "max": max, "min": min, "abs": abs, "int": int, "bool": bool, "sum": sum, "any": any, "all": all}[e.func.id](*args, **kw)
+                return {"len": len, "max": max, "min": min, "abs": abs, "int": int, "bool": bool, "sum": sum, "any": any, "all": all, "str": str, "tuple": tuple, "list": tuple}[e.func.id](*args, **kw)
             except Exception:
                 raise Unsupported(e)
         if isinstance(e, (ast.Tuple, ast.List, ast.Set)):
@@ -102,6 +121,8 @@ class Evaluator:
                 return -v
             if isinstance(e.op, ast.UAdd):
                 return +v
+            if isinstance(e.op, ast.Invert) and isinstance(v, int):
+                return ~v
             raise Unsupported(e)
         if isinstance(e, ast.BoolOp):
             if isinstance(e.op, ast.And):
@@ -214,6 +235,8 @@ class Evaluator:
                     return None
                 if isinstance(f, ast.Attribute) and f.attr in self.ignore_calls:
                     return None
+                if self.call_hook is not None and self.call_hook(st.value, self):
+                    return None
             raise Unsupported(st)
         if isinstance(st, ast.Pass):
             return None
@@ -239,6 +262,25 @@ class Evaluator:
                 if self.opaque_return:
                     return Outcome("return", "<expr>", st)
                 raise
+        if isinstance(st, ast.Try) and not st.finalbody and not st.orelse and all(_always_raises(h.body) for h in st.handlers):
+            # exception-translation wrapper: the body decides
+            for s in st.body:
+                o = self.step(s)
+                if o is not None:
+                    return o
+            return None
+        if isinstance(st, ast.For) and isinstance(st.target, ast.Tuple) and isinstance(st.iter, ast.Call) and isinstance(st.iter.func, ast.Name) \
+                and st.iter.func.id == "enumerate" and len(st.target.elts) == 2 and all(isinstance(x, ast.Name) for x in st.target.elts) and not st.orelse:
+            seq = self.ev(st.iter.args[0])
+            start = 0
+            for k in st.iter.keywords:
+                if k.arg == "start":
+                    start = self.ev(k.value)
+            if len(st.iter.args) > 1:
+                start = self.ev(st.iter.args[1])
+            if not isinstance(seq, tuple):
+                raise Unsupported(st)
+            return self._loop(st, list(enumerate(seq, start)), pair=True)
         if isinstance(st, ast.For):
             # only `for <name> in range(<int exprs>)` with a small bound
             it = st.iter
@@ -278,10 +320,13 @@ class Evaluator:
             return None
         raise Unsupported(st)
 
-    def _loop(self, st: ast.For, seq: Any) -> Optional[Outcome]:
+    def _loop(self, st: ast.For, seq: Any, pair: bool = False) -> Optional[Outcome]:
         if True:
             for i in seq:
-                self.env[st.target.id] = i
+                if pair:
+                    self.env[st.target.elts[0].id], self.env[st.target.elts[1].id] = i
+                else:
+                    self.env[st.target.id] = i
                 brk = False
                 for s in st.body:
                     o = self.step(s)
@@ -295,6 +340,17 @@ class Evaluator:
                 if brk:
                     break
             return None
+
+
+def _always_raises(stmts: List[ast.stmt]) -> bool:
+    if not stmts:
+        return False
+    last = stmts[-1]
+    if isinstance(last, ast.Raise):
+        return True
+    if isinstance(last, ast.If):
+        return bool(last.orelse) and _always_raises(last.body) and _always_raises(last.orelse)
+    return False
 
 
 def grid(names: List[str], lo: int, hi: int, constraints: Optional[Callable[[Dict[str, int]], bool]] = None,
